@@ -240,3 +240,32 @@ def install(world):  # noqa: F811
                      ("row-or-column-kept", f"forall(0, {NW}, lambda i: implies(self.mode_ghost == 'row', well_row(rowmajor(result)[i]) == well_row({FLAT}[i])) and "
                                             f"implies(self.mode_ghost == 'column', well_col(rowmajor(result)[i]) == well_col({FLAT}[i])))", ["C15"])],
         ))
+
+
+_install_c15b = install
+
+
+def install(world):  # noqa: F811
+    _install_c15b(world)
+
+    def init_make(R, Cn, mode):
+        def mk(ex):
+            obj = Obj("WellRandomizer", {"__class__": classv(ex, "robotools.transform", "WellRandomizer")})
+            return {"self": obj, "original_shape": SeqV.of("tuple", [R, Cn]), "random_seed": sint("random_seed"), "mode": mode,
+                    "ghost_R": R, "ghost_C": Cn}
+        return mk
+
+    shapes_ = [(2, 2), (1, 3), (3, 1), (2, 3)]
+    register(world, Contract(
+        func=T + "WellRandomizer.__init__", serves=["C15"],
+        scenarios=[Scenario(f"{R}x{Cn} plate, mode {m!r}, any integer seed", init_make(R, Cn, m), thorough_only=(R * Cn > 4))
+                   for R, Cn in shapes_ for m in ("full", "row", "column")] + [Scenario("2x2 plate, unknown mode", init_make(2, 2, "diagonal"))],
+        raises=[("ValueError", "not (mode == 'full' or mode == 'row' or mode == 'column')")],
+        ensures=[("well-formed", "randomizer_wf(self, ghost_R, ghost_C, mode)", ["C15"]),
+                 ("attributes", "self.original_shape[0] == ghost_R and self.original_shape[1] == ghost_C and self.random_seed == random_seed", ["C15"])],
+        native={"imports": ["from pyvc.native_io import _make_randomizer"], "check_raises": False, "returns_native": False,
+                "call": "_make_randomizer(original_shape, random_seed, mode)",
+                "clause_text": {k: f"result['{k}']" for k in ("well-formed", "attributes")}},
+        note="establishes wf(randomizer), which the method contracts assume, for small concrete plates; the permutation drawn by "
+             "numpy's RandomState is an arbitrary bijection that depends on (seed, call number, length) only (library contract)",
+    ))
